@@ -146,7 +146,7 @@ package rfc8628
 
 //@ func (*DefaultDeviceStrategy).GenerateDeviceCode
 //@   requires h != nil && h.Enigma != nil && held[addr(h.Enigma.Mutex)] == 0 && (forall m2 V :: held[m2] != 0 ==> mrank(m2) < mrank(addr(h.Enigma.Mutex)))
-//@   modifies held
+//@   modifies acq, held
 //@   ensures [C19.locks-released] held == old(held)
 //@   ensures [C16.device-code-signed] result2 == nil ==> result1 != "" && result0 != "" && (exists t string :: result0 == "ory_dc_" + t && result1 == hmacsig(t) && authentic(h.Enigma, t))
 
